@@ -106,8 +106,34 @@ func matchKeys(w *World, pats []string) []string {
 			}
 		}
 	}
+	for n, lm := range w.lemmas {
+		if lm.Induct == "" {
+			continue
+		}
+		k := "lemma." + n
+		if len(pats) == 0 {
+			keys = append(keys, k)
+			continue
+		}
+		for _, p := range pats {
+			if ok, _ := filepath.Match(p, k); ok || p == k {
+				keys = append(keys, k)
+				break
+			}
+		}
+	}
 	sort.Strings(keys)
 	return keys
+}
+
+// verifyKey verifies a function under contract or (key "lemma.<name>") an inductive lemma.
+func (w *World) verifyKey(k string) *Gen {
+	if strings.HasPrefix(k, "lemma.") {
+		if lm, ok := w.lemmas[strings.TrimPrefix(k, "lemma.")]; ok {
+			return w.verifyLemma(lm)
+		}
+	}
+	return w.verifyFunc(k)
 }
 
 func cmdVerify(args []string) {
@@ -127,7 +153,7 @@ func cmdVerify(args []string) {
 	keys := matchKeys(w, fs.Args())
 	var obls []*Obligation
 	for _, k := range keys {
-		g := w.verifyFunc(k)
+		g := w.verifyKey(k)
 		for _, o := range g.obls {
 			if *only == "" || strings.Contains(o.Name, *only) {
 				obls = append(obls, o)
